@@ -140,8 +140,23 @@ def check_trim(db, chk, rule: str) -> None:
                     raise AnalysisError(f"{q2}: role of parameter {p_} not recognised")
             return out
         if not whole:
-            runs = I.explore(ref2, role_args,
-                             lambda I: {"self": self_obj(), "profiler_steps": STEPS, "include_last_profiler_step": inc})
+            def closure(I, inc=inc):
+                base = {"self": self_obj(), "profiler_steps": STEPS, "include_last_profiler_step": inc}
+                outer_q = "Trace._filter_irrelevant_gpu_kernels"
+                if q2.startswith(outer_q + "."):
+                    # the closure sees everything the enclosing method computed in front of it (its parameters by role, the step set as the parameter STEPS)
+                    outer_f = m.func(outer_q)
+                    env0 = {"self": self_obj()}
+                    for p_ in H.param_names(outer_f)[1:]:
+                        env0[p_] = inc
+                    try:
+                        env = I.prefix_closure(m, outer_q, q2.split(".")[-1], env0)
+                        env.update({k: v for k, v in base.items() if k != "self"} if "profiler_steps" in env else {"include_last_profiler_step": inc})
+                        return env
+                    except AnalysisError:
+                        pass
+                return base
+            runs = I.explore(ref2, role_args, closure)
             runs = [r for r in runs if r.raised is None and isinstance(r.ret, Frame)]
             tag = f"[include_last={inc}]"
             if len(runs) != 1 or runs[0].ret.base[0] != "concat":
